@@ -6,19 +6,19 @@ from .queues import *
 ALL_ORIGINS8 = list(range(8))
 
 
-def ring_consts(n=2, w=8, procs=4, origins=(0,), relax=True, prefill=False, checks=True):
-    return {"N": n, "W": w, "Procs": list(range(procs)), "Origins": list(origins), "OverflowChecks": checks, "RelaxEmpty": relax, "Prefill": prefill}
+def ring_consts(n=2, w=8, procs=4, origins=(0,), relax=True, prefill=False, checks=True, mode="fifo"):
+    return {"N": n, "W": w, "Procs": list(range(procs)), "Origins": list(origins), "OverflowChecks": checks, "RelaxEmpty": relax, "Prefill": prefill, "Mode": '"%s"' % mode}
 
 
-def fs_consts(n=2, w=8, procs=4, origins=(0,), relax=False, prefill=False):
-    return {"N": n, "W": w, "Procs": list(range(procs)), "Origins": list(origins), "RelaxEmpty": relax, "Prefill": prefill}
+def fs_consts(n=2, w=8, procs=4, origins=(0,), relax=False, prefill=False, mode="fifo", checks=True):
+    return {"N": n, "W": w, "Procs": list(range(procs)), "Origins": list(origins), "RelaxEmpty": relax, "Prefill": prefill, "Mode": '"%s"' % mode}
 
 
 RING_INV = ["TypeOK", "InvBounds", "InvLinearizable", "InvContents", "NoPanic"]
 RING_ACTIONS_Q = ["MCCall"]
 
 
-def conform_ring(c, name, sut, scripts, module, consts_fn, n=2, origins=(0,), bound=2, max_runs=800, rnd_runs=300, profile="debug", prefill=False, relax_kf=True):
+def conform_ring(c, name, sut, scripts, module, consts_fn, n=2, origins=(0,), bound=2, max_runs=800, rnd_runs=300, profile="debug", prefill=False, relax_kf=True, mode="fifo"):
     """runs the given thread scripts on the real ring / pool under DFS (preemption-bounded) and random schedules,
        validates every execution against the L2 trace spec (strict L1 rule) and judges the outcome"""
     scns = []
@@ -28,7 +28,7 @@ def conform_ring(c, name, sut, scripts, module, consts_fn, n=2, origins=(0,), bo
             if rnd_runs:
                 scns.append(scn("%s_%s_o%d_rnd" % (name, sname, oi), sut, n, threads, rnd(rnd_runs, c.seed * 1000 + si * 10 + oi + 1), origin=o))
     nthreads = max(len(t) for _, t in scripts)
-    consts = consts_fn(n=n, w=64, procs=nthreads, origins=(0,), relax=False, prefill=prefill)
+    consts = consts_fn(n=n, w=64, procs=nthreads, origins=(0,), relax=False, prefill=prefill, mode=mode, checks=(profile == "debug"))
     trace, runs, v = c.conform(scns, name, module, consts, profile=profile)
     judge(c, scns, name, trace, runs, v, module, consts, allow_relax=relax_kf)
     sample_run(c, trace, runs, scns, "validated execution of the real code (%s)" % sut)
@@ -65,4 +65,38 @@ def C02(c):
     c.assumptions.append("L1 oracle: LinQueue monitor (bounded FIFO, capacity rule of the statement); the recorded finding %s is tolerated only through the relaxed rule LqRelaxEmpty" % KF_SPURIOUS_EMPTY)
 
 
-CHECKS = {"C02": C02}
+AL = op("alloc")
+AW = lambda v: op("alloc_with", v)
+FR = op("free")
+FRR = op("free_ref")
+FRL = op("free", last=True)
+
+
+def C13(c):
+    quick = c.tier == "quick"
+    origins = [0, 5, 7] if quick else ALL_ORIGINS8
+    kf = kf_open(KF_SPURIOUS_EMPTY) is not None
+    pool_inv = RING_INV + ["InvOneOwner"]
+    for script, procs in (("Script_pool2", 2), ("Script_pool3s", 3)) + (() if quick else (("Script_pool3", 3), ("Script_pool4", 4),)):
+        c.mc("MC_RingAtomic", script, ring_consts(procs=procs, origins=origins, relax=kf, prefill=True, mode="bag"), subst={"Script": script}, invariants=pool_inv,
+             required_actions=["MCCall", "DeqRecedeOk", "EnqPublish"], timeout=3000, workers=10)
+        c.mc("MC_RingFullSync", script, fs_consts(procs=procs, origins=origins, prefill=True, mode="bag"), subst={"Script": script},
+             invariants=["InvBounds", "InvLinearizable", "InvContents", "InvLockOwner", "InvOneOwner"], required_actions=["MCCall"], timeout=3000, workers=10)
+    if not quick:
+        c.mc("MC_RingAtomic", "Script_pool2_n4", ring_consts(n=4, w=16, procs=2, origins=[0, 13, 15], relax=kf, prefill=True, mode="bag"), subst={"Script": "Script_pool2"}, invariants=pool_inv, timeout=3000, workers=10)
+    big = U32 - 3
+    scripts = [("p3", [[AL, AL, FR, AL, FR, FR], [AL, FRR, AL, FR], [AW(7), AL, FRL, FRR]]),
+               ("p2x", [[AL, AL, AL, FR, FR, AL], [AL, FR, AL, AL, FRR, FR]]),
+               ("p4", [[AL, FR, AL, FRR], [AW(5), FR, AL, FR], [AL, FR], [AL, FRR]])]
+    mr, rr = (400, 150) if quick else (5000, 2500)
+    conform_ring(c, "pool_atomic", "pool_atomic", scripts, "Trace_RingAtomic", ring_consts, origins=(0, big), max_runs=mr, rnd_runs=rr, prefill=True, mode="bag")
+    conform_ring(c, "pool_fullsync", "pool_fullsync", scripts, "Trace_RingFullSync", fs_consts, origins=(0, big), max_runs=mr, rnd_runs=rr, prefill=True, mode="bag")
+    if not quick:
+        for n in (4, 8):
+            conform_ring(c, "pool_atomic_n%d" % n, "pool_atomic", scripts, "Trace_RingAtomic", ring_consts, n=n, origins=(0, U32 - n - 1), bound=3, max_runs=4000, rnd_runs=3000, prefill=True, mode="bag")
+            conform_ring(c, "pool_fullsync_n%d" % n, "pool_fullsync", scripts, "Trace_RingFullSync", fs_consts, n=n, origins=(0, U32 - n - 1), bound=3, max_runs=4000, rnd_runs=3000, prefill=True, mode="bag")
+    c.assumptions.append("L1 oracle: LinQueue monitor in 'bag' mode (an allocation may return any free id; never an owned one; fails only if every slot is owned or in transit at some instant of the call); "
+                         "id<->reference bijection compared on the real pointers by the harness (flag `bij` judged by the trace spec)")
+
+
+CHECKS = {"C02": C02, "C13": C13}
